@@ -25,6 +25,7 @@
 #define private public
 #include "P11Attributes.h"
 #include "P11Objects.h"
+#include "SoftHSM.h"
 #undef protected
 #undef private
 
@@ -130,6 +131,24 @@ int main() {
 	dumpClass<P11DSADomainObj>("DOMAIN_DSA", CKO_DOMAIN_PARAMETERS, CKK_DSA, 0, false);
 	dumpClass<P11DHDomainObj>("DOMAIN_DH", CKO_DOMAIN_PARAMETERS, CKK_DH, 0, false);
 	printf("\n ],\n");
+	// ---- mechanism registry (SoftHSM::prepareSupportedMecahnisms) and C_GetMechanismInfo, by execution ----
+	{
+		std::map<std::string, CK_MECHANISM_TYPE> mt;
+		SoftHSM::i()->prepareSupportedMecahnisms(mt);
+		CK_RV rv = C_Initialize(NULL_PTR);
+		CK_SLOT_ID slots[8]; CK_ULONG ns = 8; C_GetSlotList(CK_FALSE, slots, &ns);
+		printf(" \"mechs\": [");
+		bool first = true;
+		for (std::map<std::string, CK_MECHANISM_TYPE>::iterator it = mt.begin(); it != mt.end(); ++it) {
+			CK_MECHANISM_INFO mi; memset(&mi, 0, sizeof(mi));
+			CK_RV r2 = (rv == CKR_OK && ns > 0) ? C_GetMechanismInfo(slots[0], it->second, &mi) : CKR_GENERAL_ERROR;
+			printf("%s\n  {\"name\": \"%s\", \"type\": %lu, \"info_rv\": %lu, \"min\": %lu, \"max\": %lu, \"flags\": %lu}", first ? "" : ",",
+				it->first.c_str(), (unsigned long)it->second, (unsigned long)r2, mi.ulMinKeySize, mi.ulMaxKeySize, (unsigned long)mi.flags);
+			first = false;
+		}
+		printf("\n ],\n");
+		if (rv == CKR_OK) C_Finalize(NULL_PTR);
+	}
 	printf(" \"end\": 0\n}\n");
 	return 0;
 }
